@@ -41,21 +41,22 @@ impl Monitor for C19 {
         "cases = seeded sequences of insert / unset / get / serde-round-trip on Mapping<NameId, String> (heap values) with id distributions dense, sparse (gaps), around multiples of 128, > 1000, re-insert after unset, created by default() or with_capacity(n); after EVERY operation get (for touched and untouched ids), len, is_empty and the complete iter() output (content, ascending order, each pair once) are compared with a BTreeMap reference; serde_json round trips must reproduce the contents. distinct = hash of the operation list; non-trivial = sequence in which iter() was compared while the mapping had a gap (some id below the maximum absent)".into()
     }
     fn cases(&self, tier: Tier) -> u64 {
-        tier.pick(20_000, 600_000)
+        tier.pick(80_000, 1_600_000)
     }
     fn floor(&self, tier: Tier) -> u64 {
-        tier.pick(5_000, 150_000)
+        tier.pick(10_000, 100_000)
     }
     fn generate(&self, r: &mut Rng, _tier: Tier, _i: u64) -> C19Case {
-        let dist = r.below(5);
-        let len = 1 + r.below(60) as usize;
+        let small = crate::report::small();
+        let dist = if small { [0u64, 1, 2, 4][r.below(4) as usize] } else { r.below(5) };
+        let len = 1 + r.below(if small { 24 } else { 60 }) as usize;
         let pick = |r: &mut Rng| -> u32 {
             match dist {
                 0 => r.below(12) as u32,
                 1 => r.below(300) as u32,
-                2 => (r.below(4) * 128 + 126 + r.below(5)) as u32,
+                2 => (r.below(if small { 2 } else { 4 }) * 128 + 126 + r.below(5)) as u32,
                 3 => r.below(5000) as u32,
-                _ => [0u32, 1, 5, 127, 128, 129, 200, 255, 256, 1000, 1279, 1280][r.below(12) as usize],
+                _ => [0u32, 1, 5, 127, 128, 129, 200, 255, 256, 1000, 1279, 1280][r.below(if small { 9 } else { 12 }) as usize],
             }
         };
         let mut ops = vec![];
@@ -70,7 +71,7 @@ impl Monitor for C19 {
         let capacity = match r.below(3) {
             0 => None,
             1 => Some(r.below(4) as usize),
-            _ => Some(100 + r.below(400) as usize),
+            _ => Some(100 + r.below(if small { 100 } else { 400 }) as usize),
         };
         C19Case { capacity, ops }
     }
